@@ -33,6 +33,8 @@ func C19(c *Ctx) {
 	c19TimeoutArmedOnce(c, "C19-R8", run)
 	c.R.Rule("C19-R9", "E3", "every line read from the subprocess is compared with the step's outputs", 1)
 	c19EveryLineMatched(c, "C19-R9", run)
+	c.R.Rule("C19-R10", "E6", "the repository's session files use field names the YAML decoder knows", 1)
+	c19SessionFiles(c, "C19-R10")
 	// the function that matches output lines
 	var F *ssa.Function
 	var matchCall *ssa.Call
